@@ -1,6 +1,8 @@
 package main
 
 import (
+	"strings"
+
 	"verif/engine/sym"
 )
 
@@ -64,21 +66,27 @@ func init() {
 				for f := 0; f < 32; f++ {
 					add(5, 0, f, "insertion")
 				}
+				for _, f := range []int{0, 1, 2, 4, 8, 16, 32, 3, 12, 48, 33, 21, 42} {
+					add(6, 0, f, "insertion")
+				}
 			} else {
 				for f := 0; f < 16; f++ {
 					add(4, 0, f, "insertion")
 				}
+				add(5, 0, 0, "insertion")
+				add(5, 0, 5, "insertion")
+				add(6, 0, 0, "insertion")
 			}
 			return js
 		},
 		Covers: func(tier string) []string { return []string{"C16.checked", "C16.three-pots"} },
 		Bounds: func(tier string) []string {
 			if tier == "thorough" {
-				return []string{"n<=3 contributors: every insertion order, every fold pattern, map order policy 'rotations'", "n=4: every insertion order, every fold pattern (insertion map order)", "n=5: identity insertion order, every fold pattern", "contributions: every int64 with 0 <= c < 2^56"}
+				return []string{"n<=3 contributors: every insertion order, every fold pattern, map order policy 'rotations'", "n=4: every insertion order, every fold pattern (insertion map order)", "n=5: identity insertion order, every fold pattern; n=6: identity insertion order, 13 fold patterns", "contributions: every int64 with 0 <= c < 2^56"}
 			}
-			return []string{"n<=3 contributors: every insertion order, every fold pattern, map order policy 'rotations'", "n=4: identity insertion order, every fold pattern", "contributions: every int64 with 0 <= c < 2^56"}
+			return []string{"n<=3 contributors: every insertion order, every fold pattern, map order policy 'rotations'", "n=4: identity insertion order, every fold pattern", "n=5 (nobody / seats 0,2 folded) and n=6 (nobody folded): identity insertion order", "contributions: every int64 with 0 <= c < 2^56"}
 		},
-		Outside:     []string{"more than 5 contributors", "negative contributions or contributions >= 2^56", "map iteration orders outside the policy", "entries of folded seats in Pot.Contributors (not constrained by the statement)"},
+		Outside:     []string{"more than 6 contributors; insertion orders other than seat order for n >= 5 (n >= 4 in the quick tier)", "negative contributions or contributions >= 2^56", "map iteration orders outside the policy", "entries of folded seats in Pot.Contributors (not constrained by the statement)"},
 		Assumptions: append([]string{"sort.Slice on <= 12 elements is the insertion sort of go1.19+ (modelled, calls the real less closure)"}, commonAssumptions...),
 		Explanation: "pot.LevelList.AddContributor/GetPots executed symbolically from go/ssa on symbolic contributions; the partition/nesting oracle is asserted on every path",
 	})
@@ -175,6 +183,9 @@ func init() {
 				if n == 2 && layout == 1 {
 					continue
 				}
+				if tier != "thorough" && n == 3 && layout != 0 {
+					continue // the layout only matters for who acts first (Harness_Ready) and for forced bets (Harness_C13)
+				}
 				for street := 0; street < 4; street++ {
 					if tier != "thorough" && n == 3 && (street == 1 || street == 2) {
 						continue // quick: preflop and river for n=3
@@ -190,6 +201,12 @@ func init() {
 						}
 					}
 				}
+			}
+		}
+		if tier != "thorough" {
+			// a four-seat slice in the quick tier: flop, standard layout, the chip-moving actions
+			for _, a := range [][]int{{0, 3}, {0, 4}, {0, 5}, {3, 5}} {
+				js = append(js, sym.Job{Pkg: "", Harness: "Harness_Act", Args: []int{4, 0, 1, 0, a[0], a[1]}})
 			}
 		}
 		// the other wait points: ready (base case of Inv_act), next (street change / settlement), start
@@ -245,7 +262,7 @@ func init() {
 		if tier == "thorough" {
 			return append(b, "n in 2..4 seats")
 		}
-		return append(b, "n=2: every street, both limits; n=3: preflop and river, no-limit")
+		return append(b, "n=2: every street, both limits, layouts standard and dealer-blind; n=3: preflop and river, no-limit, standard layout; n=4: flop, standard layout, allin/bet/raise by seat 0 and raise by the last seat")
 	}
 	actOutside := []string{"more than 4 seats", "chip amounts >= 2^40 in the state (the amount argument itself is unrestricted)", "states violating Inv_act (its inductiveness is part of the check: C05.inv-* assertions; base case: the ready/next harnesses)", "exported engine plumbing (SetCurrentPlayer, BecomeRaiser, Deal, Burn, EmitEvent, LoadState, Resume) is not in the operation alphabet"}
 	actCovers := func(tier string) []string {
@@ -261,11 +278,44 @@ func init() {
 		{"C12", "raise rule and amount robustness for every int64 amount"},
 	} {
 		id := pr.id
+		// each property runs the harnesses that carry its assertions
+		needs := map[string][]string{
+			"C01": {"Harness_Act", "Harness_Ready", "Harness_Next", "Harness_C13"},
+			"C04": {"Harness_Act", "Harness_Ready", "Harness_Next", "Harness_C13"},
+			"C05": {"Harness_Act", "Harness_Ready", "Harness_Next"},
+			"C06": {"Harness_Act", "Harness_Ready", "Harness_Next", "Harness_Start", "Harness_C13"},
+			"C11": {"Harness_Act"},
+			"C12": {"Harness_Act"},
+		}[id]
+		jobsFor := func(tier string) []sym.Job {
+			var out []sym.Job
+			for _, j := range actJobs(tier) {
+				for _, h := range needs {
+					if j.Harness == h {
+						out = append(out, j)
+						break
+					}
+				}
+			}
+			return out
+		}
+		coversFor := func(tier string) []string {
+			var out []string
+			for _, c := range actCovers(tier) {
+				for _, h := range needs {
+					pre := map[string]string{"Harness_Act": "act.", "Harness_Ready": "ready.", "Harness_Next": "next.", "Harness_Start": "start."}[h]
+					if pre != "" && strings.HasPrefix(c, pre) {
+						out = append(out, c)
+					}
+				}
+			}
+			return out
+		}
 		spec := &PropSpec{
 			ID: id, Pkgs: []string{""},
-			Jobs:         actJobs,
+			Jobs:         jobsFor,
 			AssertPrefix: []string{id + "."},
-			Covers:       actCovers,
+			Covers:       coversFor,
 			Bounds:       actBounds,
 			Outside:      actOutside,
 			Assumptions:  actAssume,
@@ -280,6 +330,9 @@ func init() {
 		maxSeats := 4
 		if tier == "thorough" {
 			maxSeats = 6
+		}
+		if tier != "thorough" {
+			js = append(js, sym.Job{Pkg: "seat_manager", Harness: "Harness_SM_Next", Args: []int{5}})
 		}
 		for mx := 2; mx <= maxSeats; mx++ {
 			js = append(js, sym.Job{Pkg: "seat_manager", Harness: "Harness_SM_Next", Args: []int{mx}})
@@ -299,7 +352,7 @@ func init() {
 		return js
 	}
 	smBounds := func(tier string) []string {
-		mx := "2..4"
+		mx := "2..4 (Next also on 5 seats)"
 		if tier == "thorough" {
 			mx = "2..6"
 		}
